@@ -23,8 +23,10 @@ def _tables(ctx, exclude=()):
     return inl, cs.module_consts(ctx, CB)
 
 
-def _chk(ctx, S, ok, text, node, detail=None, arrays=(), nontrivial=True):
-    """an obligation about the content of arrays: when an undecided test stored into one of them the content is not known -> analysis error"""
+def _chk(ctx, S, ok, text, node, detail=None, arrays=(), nontrivial=True, known=None):
+    """an obligation about the content of arrays.  When it does not hold and (a) an undecided test stored into one of the arrays, or (b) one of
+    the arrays (`known`: array -> the index values the rule understands) was stored into under an index the rule does not understand, the content
+    is not known: analysis error, not a violation"""
     if not ok:
         for v in arrays:
             b = S.buf(v)
@@ -32,7 +34,18 @@ def _chk(ctx, S, ok, text, node, detail=None, arrays=(), nontrivial=True):
                 ctx.error(text, node, {"reason": "a test the rule cannot decide guards a store into this array",
                                        "tests": [ast.unparse(t.test)[:80] for t in S.ev.w.undecided][:4]})
                 return False
+        for v, allowed in (known or []):
+            for ix, _val, _st in S.cells(v):
+                if not is_rat(ix) or not any(eq(ix, a) for a in allowed if is_rat(a)):
+                    ctx.error(text, node, {"reason": "a store into this array uses an index the rule does not recognise", "index": _r(ix, 200)})
+                    return False
     return ctx.check(ok, text, node, detail, nontrivial=nontrivial)
+
+
+def _ixv(S, text, **bind):
+    """value of the index `text` (as written between the brackets of a subscript) over the parameters"""
+    u = unfn(S.root(f"__x[{text}]", **bind))
+    return u[1][1] if u is not None and u[0] == "idx" else None
 
 
 def _r(v, n=240):
@@ -214,12 +227,13 @@ def r1_cbtf(ctx):
     tf, fq, fr = fs[1][0], fs[1][1], fs[1][2]
     ok = eq(S.cell(A, "bset"), S.root("a")) and len(S.cells(A)) == 2
     _chk(ctx, S, ok, "cbtf: the returned boundary acceleration is the enforced one at every frequency (including 0 Hz, where it cannot be derived from the "
-                     "displacement) and the interior acceleration is the solver's", ret.node or fn, [(_r(i, 80), _r(v, 120)) for i, v, _ in S.cells(A)], arrays=[A])
+                     "displacement) and the interior acceleration is the solver's", ret.node or fn, [(_r(i, 80), _r(v, 120)) for i, v, _ in S.cells(A)], arrays=[A],
+         known=[(A, [_ixv(S, "bset"), qv])])
     bd = S.buf(D)
     ok = eq(S.cell(D, Q), F.fn("attr:d", sol)) and eq(S.cell(D, f"np.ix_(bset, {NZ})"), S.root(f"-a[:, {NZ}] / {OM}[{NZ}] ** 2")) \
         and len(S.cells(D)) == 2 and bd is not None and is_rat(bd.init) and bd.init.is_zero()
     _chk(ctx, S, ok, "cbtf: boundary displacement = -a/W^2 at non-zero frequencies only (zero at 0 Hz), interior displacement from the solver", ret.node or fn,
-         [(_r(i, 80), _r(v, 120)) for i, v, _ in S.cells(D)], arrays=[D])
+         [(_r(i, 80), _r(v, 120)) for i, v, _ in S.cells(D)], arrays=[D], known=[(D, [_ixv(S, f"np.ix_(bset, {NZ})"), qv])])
     ok = eq(fr, S.root("freq"))
     ctx.check(ok, "cbtf: the interior system is solved at the requested frequencies", fs and ret.node or fn, _r(fr), nontrivial=False)
     # ---- q-set equation of motion:  Mqq q'' + Bqq q' + Kqq q = -(Mqb a + Bqb v_b),  v_b = a/(i W) at non-zero frequencies, 0 at 0 Hz
@@ -236,7 +250,7 @@ def r1_cbtf(ctx):
         cl = S.cells(vb.sym)
         ok = len(cl) == 1 and eq(S.cell(vb.sym, f":, {NZ}"), S.root(f"1j * a[:, {NZ}] / {OM}[{NZ}]")) and is_rat(vb.init) and vb.init.is_zero()
         _chk(ctx, S, ok, "cbtf: the boundary term v is i a / W (minus the boundary velocity a/(i W)) at non-zero frequencies and zero at 0 Hz", vb.node,
-             [(_r(i, 80), _r(v, 120)) for i, v, _ in cl], arrays=[vb.sym])
+             [(_r(i, 80), _r(v, 120)) for i, v, _ in cl], arrays=[vb.sym], known=[(vb.sym, [_ixv(S, f":, {NZ}")])])
     # ---- boundary force: rows bset of M a + B v + K d (K_bq = 0 for a Craig-Bampton stiffness)
     ok = S.same(V, f"1j * ({OM} * __d)", __d=D)
     ctx.check(ok, "cbtf: velocity = i W displacement on every row", ret.node or fn, None if ok else _r(V))
@@ -435,9 +449,8 @@ def r2_conversion(ctx):
     ctx.check(ok, "cbconvert: converting with the reciprocal factors undoes the conversion on translations, rotations and modal DOF", fn)
     for nm in ("C", "D"):
         b = S.buf(arr[nm])
-        ok = b is not None and is_rat(b.init) and b.init.equals(1) and b.shape is not None and len(b.shape) == 1 and S.same(b.shape[0], "np.size(M, 1)") \
-            and len(S.cells(arr[nm])) == (2 if nm == "C" else 3)
-        _chk(ctx, S, ok, f"cbconvert: {nm} starts as ones over all np.size(M, 1) DOF and only the documented blocks are changed", fn, _r(b), arrays=[arr[nm]], nontrivial=False)
+        ok = b is not None and is_rat(b.init) and b.init.equals(1) and b.shape is not None and len(b.shape) == 1 and S.same(b.shape[0], "np.size(M, 1)")
+        _chk(ctx, S, ok, f"cbconvert: {nm} starts as ones over all np.size(M, 1) DOF", fn, _r(b), arrays=[arr[nm]], nontrivial=False)
     # ---- uset_convert: exactly the rows that hold lengths
     fn = cs.func(ctx, CB, "uset_convert")
     LC, MC = F.sym("LC"), F.sym("MC")
@@ -638,7 +651,7 @@ def r4_static_condensation(ctx):
     ok = vec is not None and eq(rows(S, vret, nzm), vec) and eq(rows(S, vret, zm), -(Kzx / Kzz) * vec) and len(cl) == 2 and created
     _chk(ctx, S, ok, "_solve_eig: expanded eigenvectors satisfy the equilibrium of the massless DOF, Kzz v_z + Kzx v_x = 0 (rows with mass = v, massless rows = "
                      "-Kzz^-1 Kzx v): the eigen-based rigid-body modes are rigid on those DOF too", fn,
-         None if ok else {"v": _r(vret), "stores": [(_r(i, 120), _r(v, 200)) for i, v, _ in cl]}, arrays=[vret])
+         None if ok else {"v": _r(vret), "stores": [(_r(i, 120), _r(v, 200)) for i, v, _ in cl]}, arrays=[vret], known=[(vret, [E(nzm), E(zm)])])
     # ---- null columns present, no massless DOF
     S = run(True, False)
     res = result(S, "null columns")
@@ -658,7 +671,8 @@ def r4_static_condensation(ctx):
              (zero_rows is None and b is not None and is_rat(b.init) and b.init.is_zero() and len(cl) == 1)
     ok = vec is not None and eq(rows(S, vret, NZ), vec) and zeroed and b is not None and b.init is not None
     _chk(ctx, S, ok, "_solve_eig: eigenvectors get zero rows at the removed DOF and the computed rows elsewhere", fn,
-         None if ok else {"v": _r(vret), "stores": [(_r(i, 120), _r(v, 200)) for i, v, _ in cl]}, arrays=[vret])
+         None if ok else {"v": _r(vret), "stores": [(_r(i, 120), _r(v, 200)) for i, v, _ in cl]}, arrays=[vret],
+         known=[(vret, [S.root(NZ), S.root(f"(~{NZ})")])])
     # ---- both: null columns trimmed first, then the massless DOF of what is left condensed
     S = run(True, True)
     res = result(S, "null columns and massless DOF")
